@@ -90,7 +90,9 @@ def run(chk):
                 else:
                     g2 = g
                 if g2.generation_time not in (None, 1) and rngd.random() < 0.7:
-                    yield label + "|in_generations", None, g2.in_generations()
+                    gi = g2.in_generations()
+                    if graphs.still_valid(gi):       # invalid conversions (F12) are outside "for every valid deme"
+                        yield label + "|in_generations", None, gi
                 if len(g.demes) >= 2 and rngd.random() < 0.3:
                     a, c = g.demes[0].name, g.demes[-1].name
                     yield label + "|rename-swap", None, g.rename_demes({a: c, c: a})
